@@ -405,3 +405,61 @@ PROPS['C09'] = dict(
     nontrivial=lambda inp, o: c11_nontrivial(inp, o) if is_c11_line(inp) else _c09['nontrivial'](inp, o),
     rule=_c09['rule'] + ' || the classification of socket errors into transient / address-in-use / fatal: mode c11 (every socket call kind x 12 injected error codes x every cell through the real Channel::send_probe, compared with the model of the send side)',
 )
+
+
+# ---- C17 / C18 (append to bin/props.py) -------------------------------------------------------
+def compare_tui(inp, impl_out, model_out):
+    """state after every op; `fault:<x>` compared as `fault`; a frame that the watchdog reported as a hang
+    (`fault:hang`) or as a panic of its layout solver (`fault:layout_solver`) - behaviours of the drawing library that are outside the model - ends the comparison there"""
+    a, b = norm_fault(impl_out).split(';'), norm_fault(model_out or '').split(';')
+    if a and (impl_out.endswith('fault:hang') or impl_out.endswith('fault:layout_solver')):
+        return a[:-1] == b[:len(a) - 1]
+    return a == b
+
+
+def tui_nontrivial(inp, outp):
+    # a scenario with at least one answering hop on screen and at least one command or key
+    return re.search(r'\d+c\d+', inp) is not None and (';K:' in inp or ';M:' in inp)
+
+
+TUI_TRUSTED = ['Rust harness harness/htui (op generator, scripted rounds through Tracer::verif_apply_round, ratatui TestBackend, '
+               'transcription of the run_app key dispatch chain, watchdog) in place of harness/hcore']
+
+C17_RULE = ('scenarios = initial TUI configuration (1-3 traces, max_flows 1-8, 5 column sets, privacy, max_addrs) + op list: rounds built from '
+            'evolving path sets (silent hops, ECMP variants, longer/shorter variants, up to 254 hops, first_ttl 1-5, irregular rounds with failed / '
+            're-issued probes), Tracer::clear, error set/reset, every TuiApp method, every binding of the default key table through the dispatch chain, '
+            'frames on a TestBackend at 13 boundary sizes 1x1..300x100 and random sizes; 11 directed scenarios (one per defect class found + settings / '
+            'size / 254-hop walks). Implementation and extracted model are compared on the selection state after EVERY op. '
+            'non-trivial = an answering hop exists and at least one command was issued; distinct = distinct scenario line')
+C18_RULE = ('scenarios as for C17 but every address gets unique sentinel strings for IP, reverse-DNS name, AS number / name / prefix / registry / country and '
+            'GeoIP city / region / country / continent / coordinates (seeded resolver cache and GeoIP lookup); after every frame the harness re-draws the same '
+            'state in every view (table, hop details, chart, map, help, settings x 7 tabs) x address mode (ip, host, both) x AS mode (6) x GeoIP mode (4) x '
+            'max_addrs x 4 sizes and searches the cells of each for the sentinels of hops with ttl <= n and for the source address; the model predicts the privacy '
+            'value after every op and H/N/V per row at every frame. non-trivial = privacy in force with at least one answering hop hidden; distinct = distinct scenario line')
+
+
+def c18_nontrivial(inp, outp):
+    return re.search(r'(^|;)\d+:[NV]*H', outp) is not None
+
+
+PROPS['C17'] = dict(
+    crates=['htui'], modes=[('htui', 'c17')], nontrivial=tui_nontrivial, compare=compare_tui, oracle_tag='C17',
+    rule=C17_RULE, timeout={'quick': 600, 'thorough': 3000}, trusted_extra=TUI_TRUSTED,
+    explanation='PARTIAL by nature. PROVED in Coq for all histories (any interleaving of data-shape changes, method calls, key events and frames, unbounded): '
+                'the selection state machine of TuiApp never faults (no missing flow key, no index out of bounds, no usize underflow, no unwrap on None) and after '
+                'every step every selection index (trace, flow, hop, hop address, flow_counts entry, settings tab, settings item, column) refers to an existing entry. '
+                'ONLY EXECUTED (sampled, not proved): that render::app::render as a whole (ratatui layout, widgets, chart, canvas, unicode width) neither panics nor hangs - '
+                'cases = scenarios run on a TestBackend under catch_unwind and a watchdog; the number of frames drawn is in input_distribution.',
+    assumptions=['environment assumption of the theorems (checked by the oracle on every observed State): the State map contains flow 0 and every registered flow, '
+                 'registered ids are non-zero and include 1 when any, at most max_flows are registered, a flow has at most 254 hops',
+                 'the key dispatch chain of run_app is transcribed in the harness (it cannot be separated from the crossterm event loop); the model has its own transcription'],
+)
+PROPS['C18'] = dict(
+    crates=['htui'], modes=[('htui', 'c18')], nontrivial=c18_nontrivial, compare=compare_tui, oracle_tag='C18',
+    rule=C18_RULE, timeout={'quick': 600, 'thorough': 3000}, trusted_extra=TUI_TRUSTED,
+    explanation='PARTIAL by nature. PROVED in Coq: each privacy decision of the views (Host cell, Host cell with details, map pin filter, map info panel, source) '
+                'chooses the placeholder for every hop with ttl <= n whatever the hop\'s strings are, takes the normal branch above n, hides the source iff privacy is on; '
+                'expand / contract move n by exactly one step on off,0,1,..,hop_count and never outside. ONLY EXECUTED (sampled): that no other code path of the drawing '
+                'code writes hidden text into the frame - sentinel search in the TestBackend cells over the view matrix listed in `rule`.',
+    assumptions=['the destination (target) address in the header is not covered by the privacy setting (listed known finding when the target hop itself is within n)'],
+)
